@@ -13,6 +13,7 @@ CHECKS = {
     "C02": "mc.checks.tablefam",
     "C07": "mc.checks.tablefam",
     "C08": "mc.checks.c08",
+    "C10": "mc.checks.c10",
 }
 
 
